@@ -49,6 +49,8 @@ PLAN = {
             {"monitor": "c11_rand", "variant": "rel", "shards": 16},
             # canonicity across the concurrent reordering paths (>= 65536 nodes, 2..8 workers): rebuilt function == surviving handle
             {"monitor": "c08_large", "variant": "rel", "shards": 4, "parallel": 4},
+            # MTBDD constants across enumerations of Manager::terminals() (also DOT / DDDMP export), gc and new constants
+            {"monitor": "c05_mtbdd_terminals", "variant": "rel", "shards": 8},
         ],
         "require_counters": {"all": ["gcs_that_freed", "audits"]},
     },
